@@ -25,6 +25,29 @@ class C01(PipelineProp):
             return {"gen": "straddle", "input": inp, "pretext": ptx, "prefix": "SUPER_"}
         if rng.random() < 0.04:
             return P.gen_primary_3hap(rng)
+        if rng.random() < 0.05:
+            # a map that cannot be honoured: a scaffold shown whole AND one of its interior contigs shown
+            # again as a piece of its own (beginning at the contig's start or in the gap before it):
+            # refused, or every base still written once
+            n = rng.randint(3, 5)
+            rows, spans, pos = [], [], 0
+            for k in range(n):
+                if k:
+                    g = rng.choice([10, 200])
+                    rows.append(["G", g, "scaffold"])
+                    pos += g
+                ln = rng.choice([300, 1000, 4000])
+                rows.append(["F", f"ctg{k + 1}", 1, ln, rng.choice([1, -1]), []])
+                spans.append((pos + 1, pos + ln))
+                pos += ln
+            a, b = spans[rng.randint(1, n - 2)]
+            a -= rng.choice([0, 0, 5])
+            inp = {"scaffolds": [{"name": "scaffold_1", "rows": rows}, {"name": "scaffold_2", "rows": [["F", "ctgx", 1, 500, 1, []]]}]}
+            ptx = {"bpt": "1.000000", "scaffolds": [
+                {"name": "Scaffold_1", "rows": [["F", "scaffold_1", 1, pos, 1, rng.choice([[], ["Painted"]])]]},
+                {"name": "Scaffold_2", "rows": [["F", "scaffold_1", a, b, rng.choice([1, -1]), []]]},
+                {"name": "Scaffold_3", "rows": [["F", "scaffold_2", 1, 500, 1, []]]}]}
+            return {"gen": "interior-again", "input": inp, "pretext": ptx, "prefix": "SUPER_"}
         inp = P.gen_input(rng)
         if rng.random() < 0.08:
             # haplotype tags that differ only in characters a file name would not keep apart
